@@ -8,6 +8,7 @@
   walk for a callback with effects in a monad.
 -/
 import Proofs.C19_Transforms
+import Proofs.C19_Ext7
 import MammothModel.Package
 namespace Mammoth
 
@@ -174,5 +175,87 @@ example : transform isRun (fun _ => .tab) c19_doc =
 example : (descendants c19_doc).length = 11 ∧ c19_size c19_doc = 12 := by decide
 example : descendants (.paragraph {} [c19_r S!"a", .tab]) = [.text S!"a", c19_r S!"a", .tab] := by rfl
 example : (c19_postorder (.hyperlink {} [.text S!"x", .tab])).all (fun x => !isRun x) = true := by rfl
+
+/-! ## round 7: nesting of descendants, the document-level call log, size under restyling -/
+
+/-- `get_descendants` is closed and contiguous under nesting: if `x` is a descendant of `e`, then
+    `x` preceded by ALL of `x`'s own descendants, in their own order, occupies one contiguous block
+    `get_descendants(x) ++ [x]` of `get_descendants(e)` (for some prefix `s` and suffix `t`); in
+    particular every descendant of a descendant is a descendant, and it comes before it. -/
+theorem C19_descendants_nested_block (e x : Elem) (hx : x ∈ descendants e) :
+    (∃ s t, descendants e = s ++ descendants x ++ x :: t) ∧ ∀ y ∈ descendants x, y ∈ descendants e :=
+  ⟨c19_descendants_block e x hx, c19_block_mem (c19_descendants_block e x hx)⟩
+
+#print axioms C19_descendants_nested_block
+
+private theorem c19_r_c_mem : c19_r S!"c" ∈ descendants c19_doc := by
+  simp [c19_doc, c19_r, descendants, descendantsL]
+example : ∃ s t, descendants c19_doc = s ++ descendants (c19_r S!"c") ++ c19_r S!"c" :: t :=
+  (C19_descendants_nested_block c19_doc (c19_r S!"c") c19_r_c_mem).1
+/-- the block concretely: 5 nodes before, the text `c` and its run, then paragraph, cell, row, table -/
+example : descendants c19_doc = (descendants c19_doc).take 5 ++ descendants (c19_r S!"c") ++ c19_r S!"c" ::
+    [.paragraph {} [c19_r S!"c"], .cell 1 1 false [.paragraph {} [c19_r S!"c"]],
+     .row false [.cell 1 1 false [.paragraph {} [c19_r S!"c"]]],
+     .table none none [.row false [.cell 1 1 false [.paragraph {} [c19_r S!"c"]]]]] := by rfl
+
+/-- The whole document body, for ANY answer function `g`: walking the body children with the logging
+    callback yields exactly the children of `transformDoc isT g d`, and the log grows by the calls
+    of the first body child, then those of the second, … (`flatMap`, body order) — nothing is
+    logged for the document itself, and notes/comments contribute no call. -/
+theorem C19_doc_calls_logged (isT : Elem → Bool) (g : Elem → Elem) (d : Document) (log : List Elem) :
+    (transformLM isT (c19_logged g) d.children).run log
+      = ((transformDoc isT g d).children, log ++ d.children.flatMap (c19_calls isT g)) := by
+  rw [c19_transformLM_logged, c19_callsL_flatMap]; rfl
+
+#print axioms C19_doc_calls_logged
+
+example : (transformLM isRun (c19_logged (fun _ => .tab)) (Document.mk [c19_doc, c19_r S!"d"] [] []).children).run []
+    = ([.paragraph {} [.tab, .hyperlink {} [.tab], .table none none [.row false [.cell 1 1 false [.paragraph {} [.tab]]]]], .tab],
+       [c19_r S!"a", c19_r S!"b", c19_r S!"c", c19_r S!"d"]) := by rfl
+
+/-- `get_descendants_of_type(document, T)`: the body children in order, each preceded by its own
+    descendants of the type, a child itself listed iff it passes the test; membership is exactly
+    "is in `get_descendants(document)` and passes the test". -/
+theorem C19_descendants_of_type_doc (isT : Elem → Bool) (d : Document) :
+    descendantsOfTypeDoc isT d
+      = d.children.flatMap (fun c => descendantsOfType isT c ++ (if isT c then [c] else []))
+    ∧ ∀ x, x ∈ descendantsOfTypeDoc isT d ↔ (x ∈ descendantsDoc d ∧ isT x = true) := by
+  constructor
+  · unfold descendantsOfTypeDoc descendantsOfType
+    rw [C19_descendants_doc, List.filter_flatMap]
+    congr 1
+    funext c
+    simp [List.filter_cons]
+  · intro x; simp [descendantsOfTypeDoc]
+
+#print axioms C19_descendants_of_type_doc
+
+example : descendantsOfTypeDoc isRun (Document.mk [c19_doc, c19_r S!"d"] [] [])
+    = [c19_r S!"a", c19_r S!"b", c19_r S!"c", c19_r S!"d"] := by rfl
+
+/-- Restyling callbacks (any `f` that returns an element with the same children as its argument,
+    e.g. "set the style of paragraphs matching a predicate"): the transformed tree has exactly as
+    many nodes as the original, so `get_descendants` of the result has the same length — no node is
+    dropped, duplicated or visited into a different shape, whatever the target test. -/
+theorem C19_restyle_keeps_node_count (isT : Elem → Bool) (f : Elem → Elem)
+    (hf : ∀ x, (f x).children = x.children) (e : Elem) :
+    c19_size (transform isT f e) = c19_size e
+    ∧ (descendants (transform isT f e)).length = (descendants e).length := by
+  have h := c19_transform_size isT f hf e
+  refine ⟨h, ?_⟩
+  have h1 := c19_descendants_length (transform isT f e)
+  have h2 := c19_descendants_length e
+  omega
+
+#print axioms C19_restyle_keeps_node_count
+
+/-- a restyling callback: runs become bold, children kept -/
+private def c19_bold : Elem → Elem
+  | .run r cs => .run { r with bold := true } cs
+  | e => e
+example : ∀ x, (c19_bold x).children = x.children := by
+  intro x; cases x <;> rfl
+example : transform isRun c19_bold (c19_r S!"a") = .run { bold := true } [.text S!"a"]
+    ∧ c19_size (transform isRun c19_bold c19_doc) = 12 := ⟨by rfl, by decide⟩
 
 end Mammoth
